@@ -380,6 +380,7 @@ pub fn run_case(desc: &str, ops: &[String]) {
     println!("st {} g={}", t.describe(), t.guards_ok() as u8);
     for op in ops {
         let w: Vec<&str> = op.split_whitespace().collect();
+        println!("try {}", op);
         match catch_unwind(AssertUnwindSafe(|| exec(&mut t, &w))) {
             Ok(Some(r)) => {
                 println!("o {} -> {}", op, r);
